@@ -3,7 +3,8 @@ import cliprops
 
 
 def run(ctx):
-    cases = cliprops.gen_cases(ctx, ctx.n(300, 8000), lambda rng: {"retention": 0, "remediation": "disabled", "p_template": rng.choice([0.0, 0.5, 1.0]), "falsy": True}, {})
+    cases = cliprops.gen_cases(ctx, ctx.n(300, 8000), lambda rng: {"retention": 0, "remediation": "disabled", "p_template": rng.choice([0.0, 0.5, 1.0]), "falsy": True,
+                                                                  "p_const": 0.4}, {})
     res, failing = cliprops.run_and_eval(ctx, cases, "c06_case", "c06")
     violations, corr = cliprops.collect(
         cases, res, failing, "handler invocations or caches of a never-failing client differ from the mapped projection of the bus")
